@@ -229,6 +229,7 @@ struct Rig {
     int handled = -1;
     int warned = 0;
     long long elements = 0;
+    std::vector<std::string> history;   // every op applied to this client since its creation (for replays)
 
     Rig(bool v2_, const std::function<void(QXmppConfiguration &)> &configure) : v2(v2_)
     {
@@ -261,6 +262,18 @@ struct Rig {
     }
 };
 
+// account switch on the SAME client and manager objects, the way QXmppClient::connectToServer(config) does it (the stream's
+// configuration is overwritten) or through the setters of configuration(); `own` is read back from the live configuration
+static void reconfigure(Rig &rig, const std::function<void(QXmppConfiguration &)> &fn, bool replaceWhole)
+{
+    if (replaceWhole) rig.client.configuration() = QXmppConfiguration();
+    fn(rig.client.configuration());
+    rig.own = rig.client.configuration().jidBare();
+    corr("config " + req(rig.own), "ok");
+    rig.history.push_back("config " + req(rig.own));
+    stat("account_switches");
+}
+
 static std::string showEvents(const std::vector<Event> &evs)
 {
     if (evs.empty()) return "-";
@@ -289,7 +302,12 @@ static bool sameAsInner(const Event &e, const MsgNode &m)
 static void oracle(const Rig &rig, const Outer &o, const std::string &op)
 {
     const char *gen = rig.v2 ? "v2" : "v1";
-    const std::string replay = "own=" + req(rig.own) + " " + op;
+    // failing input = the whole history of this client when short, else its account switches with stanza counts in between
+    std::string hist; size_t total = 0;
+    for (auto &h : rig.history) total += h.size() + 2;
+    if (total < 6000) { for (auto &h : rig.history) hist += h + "; "; }
+    else { int n = 0; for (auto &h : rig.history) { if (h[0] == 'm') n++; else { if (n) hist += "(" + std::to_string(n) + " stanzas); "; n = 0; hist += h + "; "; } } if (n) hist += "(" + std::to_string(n) + " stanzas); "; }
+    const std::string replay = "history=[" + hist + "] own-now=" + req(rig.own) + " failing " + op;
     const QString outerFrom = o.from.value_or(QString());
     bool bad = false;
     for (auto &e : rig.events) {
@@ -343,6 +361,7 @@ static void inject(Rig &rig, const Outer &o, int flags)
     if (kids.size() != 1) harnessBug("expected one stanza", wrapped);
     checkDom(kids[0], o, wrapped);
 
+    rig.history.push_back(op);
     rig.events.clear(); rig.handled = -1; rig.warned = 0;
     const long long before = rig.elements;
     rig.client.receive(kids[0]);
@@ -370,6 +389,24 @@ static std::vector<OwnCfg> ownConfigs()
         { "mixed-case", [](QXmppConfiguration &c) { c.setUser("Romeo.M"); c.setDomain("Montague.Example"); }, "QXmpp" },
         { "unconfigured", [](QXmppConfiguration &) {}, "r" },
         { "odd", [](QXmppConfiguration &c) { c.setUser("a&b'c"); c.setDomain("d<e>.example"); }, "r" },
+    };
+}
+
+// accounts for switching: every field is set, so applying one after another really switches
+static std::vector<OwnCfg> accounts()
+{
+    auto mk = [](const char *name, const char *user, const char *domain, const char *res) {
+        const QString u = QString::fromUtf8(user), d = QString::fromUtf8(domain), r = QString::fromUtf8(res);
+        return OwnCfg { name, [u, d, r](QXmppConfiguration &c) { c.setUser(u); c.setDomain(d); c.setResource(r); }, r };
+    };
+    return {
+        mk("A", "romeo", "montague.example", "home"),
+        mk("B", "juliet", "capulet.example", "balcony"),
+        mk("A-case", "Romeo", "montague.example", "home"),          // look-alike of A
+        mk("A-domain", "", "montague.example", "srv"),
+        mk("A-sub", "romeo", "montague.example.evil.example", "x"),   // suffix extension of A
+        mk("unset", "", "", "r"),
+        mk("unicode", "j\xc3\xbcrgen", "m\xc3\xbcnchen.example", "tel"),
     };
 }
 
@@ -469,6 +506,7 @@ struct Gen {
     Rng &rng;
     QString own, res;
     std::vector<Opt> snd;
+    std::vector<QString> formerOwns = {};   // bare JIDs this client was configured with earlier
     template<typename T> const T &pick(const std::vector<T> &v) { return v[rng.below(v.size())]; }
     bool pr(int pc) { return rng.below(100) < (uint32_t)pc; }
 
@@ -497,7 +535,7 @@ struct Gen {
         Outer o;
         o.tag = pr(94) ? "message" : (rng.coin() ? "presence" : "iq");
         o.id = pr(60) ? Opt("o" + QString::number(rng.below(5))) : Opt();
-        o.from = pr(38) ? Opt(own) : pick(snd);
+        o.from = pr(38) ? Opt(own) : (!formerOwns.empty() && pr(45)) ? Opt(pick(formerOwns)) : pick(snd);
         o.to = pr(70) ? Opt(own + "/" + res) : optJid();
         o.junk = pr(15);
         int nk = pr(50) ? 1 : rng.below(4);
@@ -527,6 +565,7 @@ static std::unique_ptr<Rig> newRig(bool v2, const OwnCfg &cfg)
 {
     auto rig = std::make_unique<Rig>(v2, cfg.fn);
     corr(std::string("reset ") + (v2 ? "v2 " : "v1 ") + req(rig->own), "ok");
+    rig->history.push_back(std::string("reset ") + (v2 ? "v2 " : "v1 ") + req(rig->own));
     stat("clients");
     return rig;
 }
@@ -616,6 +655,67 @@ int main(int argc, char **argv)
         for (int i = 0; i < n; i++) inject(*rig, g.outer(), int(rng.below(16)));
     }
     stat("random_clients", clients);
+
+    // 3. account switches on ONE long-lived client + manager: the comparison must use the configuration current at the
+    //    moment of each stanza (a manager that remembers an earlier own JID accepts the old account's carbons after a
+    //    switch and rejects the new account's).  Exhaustive over a small alphabet, both generations; then random.
+    {
+        auto acc = accounts();
+        const QString A = "romeo@montague.example", B = "juliet@capulet.example";
+        MsgNode in1 = goodInner("juliet@capulet.example/balcony", A + "/garden", "carbon payload one");
+        MsgNode in2 = goodInner(B + "/phone", "tybalt@capulet.example", "carbon payload two");
+        struct Sym { int account; Opt from; bool present; std::vector<Child> kids; };   // account >= 0: switch; else stanza
+        std::vector<Sym> alpha = {
+            { 0, {}, false, {} }, { 1, {}, false, {} }, { 2, {}, false, {} },
+            { -1, A, true, { wrap("sent", { fwd({ in1 }) }) } },
+            { -1, B, true, { wrap("received", { fwd({ in2 }) }) } },
+            { -1, QString("Romeo@montague.example"), true, { wrap("received", { fwd({ in1 }) }) } },
+            { -1, A + "/home", true, { wrap("sent", { fwd({ in2 }) }) } },
+            { -1, {}, false, { wrap("received", { fwd({ in1 }) }) } },                       // no from at all
+            { -1, B, true, { textChild("body", NS_CLIENT, "plain message, no wrapper") } },
+        };
+        const int depth = thorough ? 5 : 4;
+        long long seqs = 0;
+        std::vector<int> idx(depth, 0);
+        for (bool v2 : { true, false }) {
+            std::fill(idx.begin(), idx.end(), 0);
+            for (;;) {
+                auto rig = newRig(v2, cfgs[4]);   // starts with no JID configured
+                for (int d = 0; d < depth; d++) {
+                    const Sym &sy = alpha[idx[d]];
+                    if (sy.account >= 0) reconfigure(*rig, acc[sy.account].fn, (d + idx[d]) % 2);
+                    else {
+                        Outer o; o.id = "s" + QString::number(d); if (sy.present) o.from = sy.from;
+                        o.to = rig->own + "/r"; o.kids = sy.kids;
+                        inject(*rig, o, 0);
+                    }
+                }
+                seqs++;
+                int k = depth - 1;
+                while (k >= 0 && ++idx[k] == (int)alpha.size()) idx[k--] = 0;
+                if (k < 0) break;
+            }
+        }
+        stat("switch_exhaustive_depth", depth); stat("switch_alphabet", (long long)alpha.size()); stat("switch_sequences", seqs);
+
+        const int sclients = thorough ? 1200 : 120;
+        for (int ci = 0; ci < sclients; ci++) {
+            const bool v2 = rng.coin();
+            const OwnCfg *cur = &acc[rng.below(acc.size())];
+            auto rig = newRig(v2, *cur);
+            Gen g { rng, rig->own, cur->resource, senders(rig->own, cur->resource) };
+            const int n = 60 + rng.below(120);
+            for (int i = 0; i < n; i++) {
+                if (rng.below(100) < 12) {
+                    g.formerOwns.push_back(rig->own);
+                    cur = &acc[rng.below(acc.size())];
+                    reconfigure(*rig, cur->fn, rng.coin());
+                    g.own = rig->own; g.res = cur->resource; g.snd = senders(rig->own, cur->resource);
+                } else inject(*rig, g.outer(), int(rng.below(16)));
+            }
+        }
+        stat("switch_random_clients", sclients);
+    }
     stat("stanzas", nStanzas);
     finish();
     return 0;
